@@ -30,6 +30,7 @@ type State struct {
 	hv      map[string]int // havocked component prefixes -> epoch
 	top     *Term          // allocation watermark: every existing reference is <= top
 	boxes   []*localBox    // heap cells of local variables of the frames being executed
+	facts   map[string]*Term // term -> literal it is known to equal on this path
 }
 
 // localBox is an escaping local variable (captured by a closure or address-taken).
@@ -80,6 +81,12 @@ func (s *State) clone() *State {
 	}
 	n.fresh = append([]*Term(nil), s.fresh...)
 	n.boxes = append([]*localBox(nil), s.boxes...)
+	if len(s.facts) > 0 {
+		n.facts = make(map[string]*Term, len(s.facts))
+		for k, v := range s.facts {
+			n.facts[k] = v
+		}
+	}
 	n.closure = make(map[string]*closureInfo, len(s.closure))
 	for k, v := range s.closure {
 		n.closure[k] = v
@@ -99,6 +106,64 @@ func (s *State) assume(t *Term) {
 		return
 	}
 	s.pc = append(s.pc, t)
+	s.learn(t)
+}
+
+// learn records equalities with literals so that later branch conditions can be decided syntactically.
+func (s *State) learn(t *Term) {
+	if t.Kind != KApp {
+		return
+	}
+	switch t.Op {
+	case "and":
+		for _, a := range t.Args {
+			s.learn(a)
+		}
+	case "=":
+		a, b := t.Args[0], t.Args[1]
+		if a.Kind == KLit && b.Kind != KLit {
+			a, b = b, a
+		}
+		if b.Kind == KLit && a.Kind != KLit {
+			if s.facts == nil {
+				s.facts = map[string]*Term{}
+			}
+			s.facts[a.String()] = b
+		}
+	}
+}
+
+// decide simplifies a branch condition using the recorded facts.
+func (s *State) decide(c *Term) *Term {
+	if len(s.facts) == 0 || c.Kind != KApp {
+		return c
+	}
+	switch c.Op {
+	case "=":
+		a, b := c.Args[0], c.Args[1]
+		if v, ok := s.facts[a.String()]; ok {
+			a = v
+		}
+		if v, ok := s.facts[b.String()]; ok {
+			b = v
+		}
+		return Eq(a, b)
+	case "not":
+		return Not(s.decide(c.Args[0]))
+	case "and":
+		var cs []*Term
+		for _, a := range c.Args {
+			cs = append(cs, s.decide(a))
+		}
+		return And(cs...)
+	case "or":
+		var cs []*Term
+		for _, a := range c.Args {
+			cs = append(cs, s.decide(a))
+		}
+		return Or(cs...)
+	}
+	return c
 }
 
 func (s *State) infeasible() bool {
@@ -950,7 +1015,7 @@ func (r *Run) execInstrs(st *State, fr *Frame, b *ssa.BasicBlock, idx int, prev 
 				r.unsup("phi without matching predecessor")
 			}
 		case *ssa.If:
-			c := r.valueOf(st, fr, x.Cond).L[0]
+			c := st.decide(r.valueOf(st, fr, x.Cond).L[0])
 			if c.IsTrue() {
 				r.execBlock(st, fr, b.Succs[0], b)
 				return
